@@ -466,7 +466,9 @@ def store_subscript(interp, obj, idx, v):
             return
         src = as_array(interp, v)
         if isinstance(src, SArr):
-            interp._same_shape(view, src)
+            view2, src = interp._same_shape(view, src)
+            if view2 is not view:
+                raise PyRaise(ValueError("could not broadcast input array into the destination shape"))
             if src.dtype != obj.dtype:
                 src = src.astype(obj.dtype)
             arr_write_all(interp, view, src)
